@@ -5,6 +5,7 @@ import (
 	"encoding/json"
 	"fmt"
 	"io/ioutil"
+	"net/http"
 	"os"
 	"path/filepath"
 	"sort"
@@ -38,6 +39,30 @@ type c17Op struct {
 	// subset of the configured jobs, unchanged.  The outcome must be that of the update followed by the reload.
 	During    []string `json:"during,omitempty"`
 	HasDuring bool     `json:"hasDuring,omitempty"`
+	// Pre (update): updates that are already waiting in the channel when this one is sent - the discovery loop is
+	// still busy with the first of them (the harness holds it in the logger call that reports an unknown job, then
+	// queues the rest and lets go).  Every one of them is an update: the outcome is that of applying them one by one.
+	Pre []map[string][]grpSpec `json:"pre,omitempty"`
+}
+
+// holdHook blocks the discovery loop inside a warning it logs, while armed.
+type holdHook struct {
+	mu      sync.Mutex
+	entered chan struct{}
+	release chan struct{}
+}
+
+func (h *holdHook) Levels() []logrus.Level { return []logrus.Level{logrus.WarnLevel} }
+func (h *holdHook) Fire(*logrus.Entry) error {
+	h.mu.Lock()
+	ent, rel := h.entered, h.release
+	h.entered = nil
+	h.mu.Unlock()
+	if ent != nil {
+		close(ent)
+		<-rel
+	}
+	return nil
 }
 
 // errHook runs fn (once) when the logger it is attached to emits an error entry.
@@ -265,13 +290,31 @@ func runC17(rec *vkit.Recorder, c *c17Case) []vkit.Violation {
 	hookLog := logrus.New()
 	hookLog.SetOutput(ioutil.Discard)
 	hookLog.AddHook(hook)
+	hold := &holdHook{}
+	hookLog.AddHook(hold)
 	td := discovery.New(hookLog)
 	exp := explore.New(sm, prometheus.NewRegistry(), quiet)
 	cm := prom.NewConfigManager()
-	cm.AddReloadCallbacks(sm.ApplyConfig, exp.ApplyConfig, td.ApplyConfig)
+	// the explorer's workers run (retry interval 1 ms, hook), every target refuses the connection: a target whose
+	// probes keep failing is still a target of the latest update
+	var probes int64
+	refuse := &http.Client{Transport: rtFunc17(func(r *http.Request) (*http.Response, error) {
+		atomic.AddInt64(&probes, 1)
+		return nil, fmt.Errorf("dial tcp %s: connect: connection refused", r.URL.Host)
+	})}
+	exp.VerifSetRetryInterval(time.Millisecond)
+	cm.AddReloadCallbacks(sm.ApplyConfig, func(ci *prom.ConfigInfo) error {
+		for _, j := range ci.Config.ScrapeConfigs {
+			if ji := sm.GetJob(j.JobName); ji != nil {
+				ji.Cli = refuse
+			}
+		}
+		return nil
+	}, exp.ApplyConfig, td.ApplyConfig)
 	ctx, cancel := context.WithCancel(context.Background())
 	defer cancel()
-	sdCh := make(chan map[string][]*targetgroup.Group)
+	go func() { _ = exp.Run(ctx, 2) }()
+	sdCh := make(chan map[string][]*targetgroup.Group, 8)
 	go func() { _ = td.Run(ctx, sdCh) }()
 	forwarded := make(chan struct{}, 1000)
 	go func() {
@@ -372,6 +415,7 @@ func runC17(rec *vkit.Recorder, c *c17Case) []vkit.Violation {
 	}
 	flagReloadKeep, nt := false, false
 	flagReloadDuring := false
+	flagQueued := false
 
 	verify := func(step int, what string) {
 		act, drop := td.ActiveTargets(), td.DropTargets()
@@ -426,6 +470,25 @@ func runC17(rec *vkit.Recorder, c *c17Case) []vkit.Violation {
 			for j, r := range model {
 				next[j] = r
 			}
+			// jobs populated before, after this step (and after every update queued in front of it) must stay visible throughout
+			keep := populated(model)
+			var preSD []map[string][]*targetgroup.Group
+			for _, u := range op.Pre {
+				m := map[string][]*targetgroup.Group{}
+				for j, gs := range u {
+					m[j] = groupsOf(gs)
+					if configured[j] {
+						next[j] = refTranslate(gs, jobCfg(j))
+					}
+				}
+				preSD = append(preSD, m)
+				now := populated(next)
+				for j := range keep {
+					if !now[j] {
+						delete(keep, j)
+					}
+				}
+			}
 			sd := map[string][]*targetgroup.Group{}
 			for j, gs := range op.Update {
 				sd[j] = groupsOf(gs)
@@ -433,12 +496,10 @@ func runC17(rec *vkit.Recorder, c *c17Case) []vkit.Violation {
 					next[j] = refTranslate(gs, jobCfg(j))
 				}
 			}
-			// jobs populated before and after this step must stay visible throughout
-			keep := map[string]bool{}
-			pre, post := populated(model), populated(next)
-			for j := range pre {
-				if post[j] {
-					keep[j] = true
+			post := populated(next)
+			for j := range keep {
+				if !post[j] {
+					delete(keep, j)
 				}
 			}
 			var during map[string]bool
@@ -465,10 +526,45 @@ func runC17(rec *vkit.Recorder, c *c17Case) []vkit.Violation {
 				hook.mu.Unlock()
 			}
 			setMustHave(keep)
-			select {
-			case sdCh <- sd:
-			case <-time.After(30 * time.Second):
-				add("C17/update-never-taken", "step %d: the discovery loop did not take the update of %d jobs within 30s", i, len(sd))
+			if len(preSD) > 0 {
+				flagQueued = true
+				ent, rel := make(chan struct{}), make(chan struct{})
+				hold.mu.Lock()
+				hold.entered, hold.release = ent, rel
+				hold.mu.Unlock()
+				first := map[string][]*targetgroup.Group{"job-unknown-to-the-config": groupsOf([]grpSpec{{Source: "hold", Targets: []map[string]string{{"__address__": "hold:1"}}}})}
+				for j, g := range preSD[0] {
+					first[j] = g
+				}
+				sdCh <- first
+				select {
+				case <-ent: // the loop is inside the translation of the first update
+				case <-time.After(200 * time.Millisecond): // it logged nothing: the updates are simply queued
+				}
+				for _, m := range preSD[1:] {
+					sdCh <- m
+				}
+				sdCh <- sd
+				hold.mu.Lock()
+				hold.entered = nil
+				hold.mu.Unlock()
+				close(rel)
+				for k := range preSD {
+					select {
+					case <-forwarded:
+					case <-time.After(30 * time.Second):
+						add("C17/update-never-published", "step %d: %d updates were waiting in the channel at the same time; the result of update %d of them was not published within 30s", i, len(preSD)+1, k+1)
+					}
+				}
+				if len(vs) > 0 {
+					return vs
+				}
+			} else {
+				select {
+				case sdCh <- sd:
+				case <-time.After(30 * time.Second):
+					add("C17/update-never-taken", "step %d: the discovery loop did not take the update of %d jobs within 30s", i, len(sd))
+				}
 			}
 			select {
 			case <-forwarded:
@@ -584,6 +680,23 @@ func runC17(rec *vkit.Recorder, c *c17Case) []vkit.Violation {
 			}
 		}
 	}
+	// the probes of every tracked target go on failing for a while (bounded wait; more failures can only make a
+	// wrong explorer more wrong): the explorer still tracks the targets of the latest update
+	if n := int64(len(lastUpdateHashes)); n > 0 && len(vs) == 0 {
+		for h := range lastUpdateHashes {
+			_ = exp.Get(h)
+		}
+		start, until := atomic.LoadInt64(&probes), time.Now().Add(300*time.Millisecond)
+		for atomic.LoadInt64(&probes)-start < 6*n && time.Now().Before(until) {
+			time.Sleep(2 * time.Millisecond)
+		}
+		for h, js := range lastUpdateHashes {
+			if exp.Get(h) == nil {
+				add("C17/explorer-lost-target", "after the last step: target %d of job(s) %v (latest update, still configured) is unknown to the explorer; %d probes have failed by now", h, js, atomic.LoadInt64(&probes))
+				break
+			}
+		}
+	}
 	setMustHave(map[string]bool{})
 	stopPoll()
 	wg.Wait()
@@ -595,6 +708,10 @@ func runC17(rec *vkit.Recorder, c *c17Case) []vkit.Violation {
 	}
 	b, _ := json.Marshal(c)
 	var cls []string
+	if flagQueued {
+		cls = append(cls, "several-updates-waiting-in-the-channel-at-once")
+		nt = true
+	}
 	if flagReloadDuring {
 		cls = append(cls, "reload-landed-while-an-update-was-being-translated")
 		nt = true
@@ -723,6 +840,20 @@ func genC17(t *rapid.T) *c17Case {
 					}
 				}
 				cur = op.During
+			} else if len(cur) <= 8 && rapid.IntRange(0, 3).Draw(t, l+"-queued") == 0 {
+				// one or two (partial) updates are already waiting in the channel when this one is sent
+				for k, nq := 0, rapid.IntRange(1, 2).Draw(t, l+"-nQueued"); k < nq; k++ {
+					u := map[string][]grpSpec{}
+					for _, jv := range cur {
+						if rapid.Bool().Draw(t, fmt.Sprintf("%s-q%d-has-%s", l, k, jv)) {
+							u[baseName(jv)] = genGroups(t, fmt.Sprintf("%s-q%d-%s", l, k, jv), 2, 2, false)
+						}
+					}
+					if len(u) == 0 {
+						u[baseName(cur[0])] = genGroups(t, fmt.Sprintf("%s-q%d-one", l, k), 1, 2, false)
+					}
+					op.Pre = append(op.Pre, u)
+				}
 			}
 			c.Ops = append(c.Ops, op)
 		case 1:
@@ -769,3 +900,7 @@ func TestReplayC17(t *testing.T) {
 		t.Fatalf("%s", strings.Join(fails, "\n"))
 	}
 }
+
+type rtFunc17 func(*http.Request) (*http.Response, error)
+
+func (f rtFunc17) RoundTrip(r *http.Request) (*http.Response, error) { return f(r) }
